@@ -402,7 +402,7 @@ fn native_c10_bounded() {
     if std::env::var("KOGE29_C10").is_err() {
         return;
     }
-    const VECS: [u8; 3] = [36, 37, 39];
+    const VECS: [u8; 3] = [1, 36, 63]; // first, a timer vector, last entry of the table
     const LEN: usize = 7;
     let mut fails: Vec<(&'static str, String)> = vec![];
     let mut count = 0u64;
